@@ -5,6 +5,7 @@ import (
 	"encoding/hex"
 	"encoding/json"
 	"fmt"
+	valsettypes "github.com/palomachain/paloma/v2/x/valset/types"
 	"sort"
 	"strconv"
 
@@ -75,6 +76,8 @@ type JobWorld struct {
 	usedTx      map[common.Hash]bool
 	usedTxOrder []common.Hash
 	hooks       []func(*JobWorld, *world.BlockResult)
+	// Granter has given a fee grant to Grantee, whose key may sign requests made in Granter's name
+	Granter, Grantee *world.Account
 	// Contracts are instances of the echo contract: principals with 32-byte addresses that create and run jobs through the wasm bindings
 	Contracts []*Contract
 }
@@ -137,6 +140,14 @@ func NewJobWorld(r *core.Run, cfg BridgeCfg, hooks ...func(*JobWorld, *world.Blo
 	}
 	if !b.bootstrapped && !b.Aborted {
 		core.Harnessf("bridge bootstrap did not complete (height %d)", b.N.Height)
+	}
+	if len(b.Users) >= 2 && !b.Aborted {
+		g, e := b.Users[0], b.Users[len(b.Users)-1]
+		res := b.Submit(g, mustGrant(g, e))
+		w.Step()
+		if r := b.Result(res.Tx); res.Accepted() && r != nil && r.Code == 0 {
+			w.Granter, w.Grantee = g, e
+		}
 	}
 	if cfg.NContracts > 0 && !b.Aborted {
 		w.Contracts = DeployEcho(b.Sim, b.Users[0], cfg.NContracts, w.Step)
@@ -261,7 +272,14 @@ func (w *JobWorld) ExecuteJob(u *world.Account, id string, payload []byte) {
 	if payload != nil {
 		in = jobPayload(payload)
 	}
-	res := w.Submit(u, &schedulertypes.MsgExecuteJob{Metadata: meta(u), JobID: id, Payload: in})
+	signer, md := u, meta(u)
+	if u == w.Granter && w.T.Draw(3) == 1 {
+		// the request is made in u's name but signed by the key holding a fee grant from u
+		signer = w.Grantee
+		md = valsettypes.MsgMetadata{Creator: u.Bech32(), Signers: []string{signer.Bech32()}}
+		w.R.Stats.Probe("job_execution_signed_by_grantee")
+	}
+	res := w.Submit(signer, &schedulertypes.MsgExecuteJob{Metadata: md, JobID: id, Payload: in})
 	if res.Accepted() {
 		w.pending = append(w.pending, &jobOp{kind: "execute", user: u, jobID: id, payload: payload, rawIn: in, tx: res.Tx})
 	}
